@@ -1478,6 +1478,23 @@ class Interp:
             return acc
         if f is BUILTINS["sorted"] and args:
             return self.py_sorted(args[0], kwargs.get("key"), kwargs.get("reverse", False), node)
+        if isinstance(f, _OpFn):
+            if f.unary:
+                hook = getattr(self, "unop_hook", None)
+                r = hook(f.op, args[0], node) if hook is not None else NotImplemented
+                return r if r is not NotImplemented else self.binop(ast.Sub, 0, args[0], node)
+            return self.binop(f.op, args[0], args[1], node)
+        if f is _REDUCE and len(args) >= 2:
+            items = list(self.iterate(args[1], node))
+            if len(args) > 2:
+                acc = args[2]
+            elif items:
+                acc = items.pop(0)
+            else:
+                raise LiftRaise("TypeError: reduce() of empty iterable with no initial value", node)
+            for x in items:
+                acc = self.call(args[0], [acc, x], {}, node, mod)
+            return acc
         if f is _GROUPBY and args:
             # itertools.groupby: runs of *consecutive* items with equal keys, in order (eager)
             keyf = kwargs.get("key") if "key" in kwargs else (args[1] if len(args) > 1 else None)
@@ -1561,9 +1578,9 @@ def _hashable(k):
 
 
 _SAFE_METHODS = {
-    "tuple": ("index", "count"),
-    "list": ("index", "count", "append", "extend", "insert", "pop", "copy", "reverse", "sort"),
-    "dict": ("get", "items", "keys", "values", "copy", "update", "setdefault", "pop"),
+    "tuple": ("index", "count", "__getitem__", "__contains__", "__len__"),
+    "list": ("index", "count", "append", "extend", "insert", "pop", "copy", "reverse", "sort", "__getitem__", "__contains__", "__len__", "clear", "remove"),
+    "dict": ("get", "items", "keys", "values", "copy", "update", "setdefault", "pop", "__getitem__", "__contains__", "__len__", "popitem", "clear"),
     "str": ("join", "format", "startswith", "endswith", "split", "lower", "upper", "strip", "encode", "replace", "rstrip", "lstrip", "isdigit"),
     "bytes": ("hex", "decode"),
     "set": ("add", "union", "copy", "update", "discard", "remove"),
@@ -1764,6 +1781,20 @@ def _GROUPBY(*a, **k):  # placeholder identity: interpreted in Interp.call (the 
     raise Unsupported("itertools.groupby outside the interpreter")
 
 
+def _REDUCE(*a, **k):  # functools.reduce: interpreted in Interp.call (the function is lifted code or an operator function)
+    raise Unsupported("functools.reduce outside the interpreter")
+
+
+class _OpFn:
+    """operator.mul / add / ...: the binary (unary) operation of the interpreter"""
+
+    def __init__(self, op, unary=False):
+        self.op, self.unary = op, unary
+
+    def __call__(self, *a):
+        raise Unsupported("operator function outside the interpreter")
+
+
 # documented standard-library semantics used by the analysed code (trusted models)
 STDLIB = {
     "numbers.Integral": BUILTINS["int"],
@@ -1777,7 +1808,14 @@ STDLIB = {
     "itertools.product": lambda *a, repeat=1: list(__import__("itertools").product(*[_it(x) for x in a], repeat=repeat)),
     "collections.defaultdict": __import__("collections").defaultdict,
     "functools.cmp_to_key": __import__("functools").cmp_to_key,
-    "functools.reduce": __import__("functools").reduce,
+    "functools.reduce": _REDUCE,
+    "operator.mul": _OpFn(ast.Mult),
+    "operator.add": _OpFn(ast.Add),
+    "operator.sub": _OpFn(ast.Sub),
+    "operator.truediv": _OpFn(ast.Div),
+    "operator.pow": _OpFn(ast.Pow),
+    "operator.matmul": _OpFn(ast.MatMult),
+    "operator.neg": _OpFn(ast.USub, unary=True),
 }
 
 _ITER_BUILTINS = {BUILTINS[n] for n in ("enumerate", "zip", "sum", "sorted", "reversed", "any", "all", "map", "filter", "min", "max", "set", "frozenset")}
